@@ -8,7 +8,28 @@ import sys
 VERIF = os.path.dirname(os.path.dirname(os.path.abspath(__file__)))
 sys.path.insert(0, os.path.join(VERIF, "lib"))
 
+TOK_NOTE = "Trusted: unicode-segmentation, char::is_whitespace, UTF-8 encoding for the view; special-token sets prefix-free (texts where two spellings match at one place are skipped and counted); TLC. Bounded exhaustive spaces as stated; random part seeded by VERIF_SEED."
 CLAIMED = {
+    "C01": dict(
+        text="spec/Tok.tla specifies the special-token scanner (leftmost, non-overlapping), byte encoding (prefix ids, UTF-8 bytes / special ids, suffix ids), character encoding (one id per code point or grapheme cluster, unk outside the alphabet) and decoding on the abstract text model; TLC enumerates all texts up to length 3/4 over 8 class-complete slots (every near miss of a special-token spelling) x byte and char configurations, the real tokenizers are run on every case and Trace_Tok re-derives ids and decodings from the view and compares exactly; random real Unicode strings the same way.",
+        note=TOK_NOTE + " No separate design-level state exploration: the scanner/encoders are functional specifications evaluated by TLC on every enumerated input.",
+        technique="TLA+ functional spec of scanner/encoders; TLC-enumerated input space replayed into the code; every recorded call validated by a TLC trace spec",
+        ref="6 C01"),
+    "C02": dict(
+        text="TLC explores the BPE merge machine of spec/Bpe.tla (one MergeStep per transition) for all well-formed tables <=3 entries over 2 byte symbols x all words up to 5/6 bytes: the tokens concatenate to the word in every state (lossless), the machine terminates, decoding the ids returns the bytes; the same tables x all texts up to length 4/5 with whitespace structure x max_vocab_size truncations x prefix/suffix configs are replayed on real BPETokenizers (tables written with the library's own serializer) and Trace_Tok checks id range, token-byte concatenation and decode = text minus trailing whitespace; random tables (depth >= 2, up to 40 entries) likewise.",
+        note=TOK_NOTE + " Tables from train_bpe are covered by C19's check.",
+        technique="TLA+ merge machine model-checked with TLC; TLC-enumerated tables/texts replayed; recorded encodings validated by a TLC trace spec",
+        ref="6 C02/C03"),
+    "C03": dict(
+        text="Same machinery as C02 with the canonical-merge clause: for every recorded text the real ids must equal Bpe!Encode (repeatedly the lowest merge id, leftmost on ties, among all currently mergeable adjacent pairs, per whitespace-prefixed word); MC_Bpe shows the machine is deterministic and terminating and that a single-token result is the table entry.",
+        note=TOK_NOTE + " The code's heap with lazy deletion is modelled as 'pop the minimum valid candidate'.",
+        technique="TLA+ merge machine model-checked with TLC; exhaustive and random tables replayed; exact comparison by a TLC trace spec",
+        ref="6 C02/C03"),
+    "C04": dict(
+        text="spec/Tok.tla gives the id layout of byte, char and BPE vocabularies as a function of the configuration (de-duplication, extra padding tokens, unk, truncation); TLC enumerates special-token lists with duplicates x prefix/suffix x pad_to_multiple_of and all well-formed merge tables x every truncation; the real tokenizer is interrogated on every id in [0, vocab_size+16) and every UTF-8 token, and Trace_Tok checks the mutual consistency of vocab_size / get_vocab / id_to_token / token_to_id / pad, prefix, suffix and special ids / single-id decoding (property layer) and equality with the spec layout (mechanism layer, DRIFT).",
+        note=TOK_NOTE,
+        technique="TLA+ spec of the id layouts; TLC-enumerated configurations replayed; recorded answers validated by a TLC trace spec",
+        ref="6 C04"),
     "C05": dict(
         text="TLC explores every interleaving of the worker/consumer actions of spec/Pipe.tla (one action per segment between two shared-memory accesses of the real worker loop) for small thread counts and all upstream lengths and checks order, exactly-once, completeness and termination under fairness; the spec is bound to the code in both directions: an edge cover of each explored state graph is replayed as controlled schedules on the real Pipe through guarded schedule-point hooks, and seeded random controlled schedules and free-running executions are recorded and validated by TLC (property monitor Trace_PipeObs on observables; mechanism conformance Trace_Pipe with lazily placed silent steps, Pipe's invariants checked on every reconstructed state).",
         note="Bounded: MC W<=3,N<=3 quick / W<=4,N<=4 thorough; replayed graphs up to (2,3) quick / (3,3) thorough; random runs W<=4, N<=40. Trusted: SeqCst atomics and std mpsc linearizable, hooks only at schedule points (a race inside one segment is only reachable by the free-running runs), 1.5 s no-progress time-out (re-run once).",
